@@ -16,7 +16,7 @@ RULE = ("Case = nc 1..400 x ns 1..400 x dtype f4/f8 x full-scale range (scalar p
         "64 eps (real) below/at/above 0.98*range, steps 64 eps below/above the slew limit, permanently 'hot' channels "
         "sitting at/below the threshold, gaps 0/1/half-width/width/random, runs touching both ends) in four regimes "
         "(slew off, voltage off, mixed with default-like range/limit ratio, Gaussian noise with counts fluctuating "
-        "around k0). Bulk data from a seed. Oracle: per-sample integer channel counts over 0.98*range and over the "
+        "around k0), C-ordered or as the transpose of an (ns, nc) chunk. Bulk data from a seed. Oracle: per-sample integer channel counts over 0.98*range and over the "
         "step limit v_per_sec*fs, flagged iff a count >= k0+1 (three-valued: a count that depends on a value within "
         "8 eps of a threshold is not asserted); mute in [0,1], <=1e-9 on flags, >=1-1e-9 farther than the half width, "
         "== clip(1 - sum flags*sin window) by a direct loop (1e-9), and equal (1e-12) to the mute of a 3-channel "
@@ -32,8 +32,10 @@ ASSUMPTIONS = [
     "proportion is compared on integer channel counts: 'more than proportion' means count >= k0+1 where k0 is the largest "
     "count whose correctly rounded quotient k0/nc does not exceed the proportion (DESIGN.md section 7)",
     "values closer than 8 eps (of the data dtype) to a threshold whose exact value is not representable are not asserted",
-    "even taper widths have no centre sample: for them only range, 'one beyond width/2' and 'function of the flags' "
-    "are asserted, the value on flagged samples is recorded as a statistic",
+    "even taper widths have no centre sample: 'farther than the half width' is read as 'farther than width/2', the "
+    "sine-window reference is not compared (its alignment is a convention), and 'zero on every flagged sample' is "
+    "asserted under its own kind C16.mute_zero_on_flag.even_width (fails on the unchanged tree: known finding "
+    "even_taper_width)",
 ]
 BUDGET = {"quick": 8000, "thorough": 200000}
 SHRINK = {"quick": True, "thorough": True}
@@ -45,6 +47,13 @@ NS_MAX = 400
 GAINS = [50, 125, 250, 500, 1000, 1500, 2000, 3000]
 DECIMALS = [0.2, 0.2, 0.2, 0.05, 0.1, 0.25, 0.3, 0.5, 0.75, 0.9, 0.99, 1.0 / 3.0]
 FS = [30000, 2500, 30000.0, 29999.757983, 1.0]
+
+
+def known_even_taper_width(case, f):
+    return f.kind == "C16.mute_zero_on_flag.even_width" and case.get("M", 1) % 2 == 0
+
+
+KNOWN = {"even_taper_width": known_even_taper_width}
 
 
 # ------------------------------------------------------------------------------------------------------------------
@@ -233,7 +242,12 @@ def _check_mute(ctx, flags, mute, m):
                       lambda: (f"mute is {on!r} on flagged sample "
                                f"{int(np.flatnonzero(flags)[np.argmax(mute[flags])])} (M={m}, ns={ns})"))
         else:
+            # no sample of an even-length sine window equals 1 (its two centre samples are cos(pi / 2M)), so the
+            # convolution does not reach 1 under an isolated flag. Own kind: registered as a known finding.
             ctx.stat("even_width_mute_on_flag", on)
+            ctx.check(on <= TOL, "C16.mute_zero_on_flag.even_width",
+                      lambda: (f"mute is {on!r} on flagged sample "
+                               f"{int(np.flatnonzero(flags)[np.argmax(mute[flags])])} (even M={m}, ns={ns})"))
     if m % 2:
         ref = _mute_reference(flags, m)
         err = float(np.max(np.abs(mute - ref)))
@@ -494,23 +508,31 @@ def _run_data(case, ctx):
     # --- oracle: integer channel counts (lower bound: certainly over, upper bound: possibly over)
     ax = np.abs(x.astype(float))
     Tc = T[:, None]
+    eps = b["eps"]
+    n_band = 0
     if b["exact"]:
         cv_lo = cv_hi = np.sum(ax > Tc, axis=0)
     else:
         cv_lo = np.sum(ax > Tc * (1 + band), axis=0)
         cv_hi = np.sum(ax > Tc * (1 - band), axis=0)
+        n_band += int(np.sum(cv_hi - cv_lo))
+        rel = np.abs(ax / Tc - 1)
+        rel = rel[(rel > band) & (rel < 0.5)]
+        if rel.size:  # how close (in eps of the data dtype) an asserted value comes to the inexact threshold
+            ctx.stat("min_value_distance_to_threshold_eps_" + case["dtype"], float(rel.min() / eps))
     if ns > 1:
         x64 = x.astype(float)
         steps = np.abs(x64[:, 1:] - x64[:, :-1])
         cd_lo = np.r_[np.sum(steps > L * (1 + band), axis=0), 0]
         cd_hi = np.r_[np.sum(steps > L * (1 - band), axis=0), 0]
-        near = steps[(steps > L * (1 - band)) & (steps <= L * (1 + band))]
-        ctx.stat("values_inside_band", int(near.size) + (0 if b["exact"] else int(np.sum(cv_hi - cv_lo))))
-        sel = steps[(steps > 0.5 * L) & (steps < 2 * L)]
-        if sel.size:
-            ctx.stat("min_step_rel_distance_to_limit", float(np.min(np.abs(sel / L - 1))))
+        n_band += int(np.sum(cd_hi - cd_lo))
+        rel = np.abs(steps / L - 1)
+        rel = rel[(rel > band) & (rel < 0.5)]
+        if rel.size:
+            ctx.stat("min_step_distance_to_limit_eps_" + case["dtype"], float(rel.min() / eps))
     else:
         cd_lo = cd_hi = np.zeros(1, int)
+    ctx.stat("values_inside_band_per_case", n_band)
     need = k0 + 1
     exp_true = (cv_lo >= need) | (cd_lo >= need)
     exp_false = (cv_hi < need) & (cd_hi < need)
